@@ -232,6 +232,11 @@ class XorProvider(IEncryptionProvider):
         :returns: the encrypted value
         """
         bindata = text.encode() if isinstance(text, str) else text
+        if not isinstance(bindata, (bytes, bytearray, memoryview)):
+            # bytearray() takes more than byte strings: an int N would become N zero bytes, whose
+            # XOR "ciphertext" is the first N bytes of the key itself
+            raise TypeError("value must be a string or bytes")
+
         buff = bytearray(bindata)
         for i, c in zip(range(len(buff)), cycle(self.__key)):
             buff[i] ^= c
@@ -241,6 +246,9 @@ class XorProvider(IEncryptionProvider):
         """
         :returns: the decrypted values
         """
+        if not isinstance(ciphertext, (bytes, bytearray, memoryview)):
+            raise TypeError("ciphertext must be bytes")
+
         return self.encrypt(ciphertext)
 
 
